@@ -18,6 +18,9 @@ pub fn units(tier: &str, _seed: u64) -> Vec<String> {
         v.push(unit(&[("shape", s), ("n", "1"), ("fs", "PEN"), ("k", "sym"), ("a", "sym")]));
     }
     v.push(unit(&[("shape", shapes[1]), ("n", "2"), ("fs", "PEN"), ("k", "sym"), ("a", "sym"), ("ord", "rev")]));
+    // a very large and a very small building (GWh and fractions of a Wh): every rendering still states the result
+    v.push(unit(&[("shape", shapes[1]), ("n", "1"), ("fs", "PEN"), ("k", "0"), ("a", "1"), ("dom", "900000:1000000")]));
+    v.push(unit(&[("shape", shapes[1]), ("n", "1"), ("fs", "PEN"), ("k", "0"), ("a", "sym"), ("dom", "0.00001:0.01")]));
     // free text (comments, metadata keys and values, factor comments): a catalogue of strings built from the
     // characters that matter to XML, each alone, doubled, at either end, in both orders, already-escaped
     // look-alikes, non-ASCII, control characters; strings are *shape* (enumerated), not solver variables
